@@ -46,12 +46,16 @@ type assetMgr struct {
 
 // findAsset finds the asset by matching the uri with all assets paths.
 func (am *assetMgr) findAsset(uri string) (*asset, bool) {
-	for assetPath := range am.assets {
+	// An asset directory may lie inside another one. The longest matching path is the asset.
+	var found *asset
+	for assetPath, a := range am.assets {
 		if uri == assetPath || strings.HasPrefix(uri, assetPath+"/") {
-			return am.assets[assetPath], true
+			if found == nil || len(assetPath) > len(found.AssetPath) {
+				found = a
+			}
 		}
 	}
-	return nil, false
+	return found, found != nil
 }
 
 // addAsset adds or retrieves an asset.
